@@ -232,7 +232,7 @@ def run(ctx):
             if r["i"] in fails:
                 at = set(ctx.details.get(r["i"], {}).get("at", []))
                 failures.append({"i": r["i"], "case": {"chain": r["case"]["chain"], "text": r["text"]},
-                                 "obs": [o for o in r["obs"] if o["v"] in at][:8] or r.get("err"), "fails": fails[r["i"]]})
+                                 "obs": [o for o in r["obs"] if o["v"] in at][:8] or [{"v": "chain refused: %s " % r.get("err"), "valid": False}], "fails": fails[r["i"]]})
         res = ctx.model("SchemaDocs", constants={"MaxFields": 3 if ctx.thorough else 2, "StateSet": BASE_STATES | ({"ok2", "casefold", "numstr"} if ctx.thorough else set()),
                                                  "Spell": False}, invariants=["EmitCase"], required_actions=["Fill"])
         docs = list(res.payload_lines())
